@@ -651,6 +651,23 @@ func (r *hubRig) skiName(ski string) string {
 	return ski
 }
 
+// spell returns the SKI as a user might type it from a device label (upper case, blanks,
+// dashes) - in a fifth of the calls of runs that have the feature, otherwise unchanged.
+func (r *hubRig) spell(ski string) string {
+	if !r.x.Feat(FeatMoreInputs) || r.x.S.ChooseBiased("ski-spelling", 5, 0.8) == 0 {
+		return ski
+	}
+	r.x.Probe("label-spelling-of-ski")
+	var b strings.Builder
+	for i, c := range ski {
+		if i > 0 && i%4 == 0 {
+			b.WriteByte(' ')
+		}
+		b.WriteString(strings.ToUpper(string(c)))
+	}
+	return b.String()
+}
+
 // cutNewest resets the most recently established transport connection of node.
 func (r *hubRig) cutNewest(node string) {
 	var newest *simnet.Conn
